@@ -157,7 +157,9 @@ Fires(len) == CASE Trig = "size"    -> len > Limit
 
 \* dropping the BufWriter writes what it still holds (the part of a record whose encoder failed)
 Flushed(d) == IF writer.buf = <<>> THEN d ELSE [d EXCEPT !.act.d = @ \o writer.buf]
-\* LogFile::roll() closes the writer (flushing), then the roller starts
+\* LogFile::roll() closes the writer (flushing), then the roller starts.  Between the two the file is still at its path
+\* with all its bytes - Size(Flushed(disk).act), which is writer.len by LenExact - and that is still the size a policy
+\* is shown if it looks again (the replay's own policy does, in one materialisation).
 BeginRoll(nextpc) ==
   /\ writer' = Closed
   /\ disk' = Flushed(disk) /\ W' = W \o writer.buf
